@@ -58,6 +58,8 @@ pub enum TransportCall {
     RejectPending(ConnectionId),
     Reject(ConnectionId),
     Cancel(ConnectionId),
+    /// Emitted right after `Dial`: the peer the transport will authenticate the remote against.
+    DialTarget(ConnectionId, Option<PeerId>),
 }
 
 /// Transport whose answers are chosen by the harness: `decide(call)` returns whether the call succeeds.
@@ -85,6 +87,7 @@ impl Transport for ScriptedTransport {
         let (_, peer) = TcpAddress::multiaddr_to_socket_address(&address)?;
         self.dialed_peer = peer;
         let _ = (self.decide)(TransportCall::Dial(connection_id));
+        let _ = (self.decide)(TransportCall::DialTarget(connection_id, peer));
         Ok(())
     }
     fn accept(&mut self, connection_id: ConnectionId) -> crate::Result<BoxFuture<'static, crate::Result<()>>> {
@@ -199,4 +202,13 @@ pub fn peer_addresses(manager: &TransportManager, peer: &PeerId, limit: usize) -
 
 pub fn local_peer_id(manager: &TransportManager) -> PeerId {
     manager.local_peer_id
+}
+
+/// Addresses handed to `Transport::open` are not visible through `TransportCall`; the peer's address book is.
+pub fn address_score(manager: &TransportManager, peer: &PeerId, address: &Multiaddr) -> Option<i32> {
+    manager.peers.read().get(peer).and_then(|context| context.addresses.addresses.get(address).map(|record| record.score_verif()))
+}
+
+pub fn address_count(manager: &TransportManager, peer: &PeerId) -> usize {
+    manager.peers.read().get(peer).map(|context| context.addresses.addresses.len()).unwrap_or(0)
 }
